@@ -38,6 +38,11 @@ def make_kernel(kind, X, seed):
     B = rs.normal(size=(n, n))
     if kind == "linear":
         return X @ X.T
+    if kind == "lin_small":                 # small-magnitude kernel: gains of order 1e-10 are still real gains
+        return (X @ X.T + 0.5) * 1e-10
+    if kind == "rbf_big":
+        d2 = ((X[:, None, :] - X[None, :, :]) ** 2).sum(2)
+        return np.exp(-d2 / X.shape[1]) * 1e7
     if kind == "rbf":
         d2 = ((X[:, None, :] - X[None, :, :]) ** 2).sum(2)
         return np.exp(-d2 / X.shape[1])
@@ -88,7 +93,7 @@ def check_call(K, X, Y, Z, n_leaves, n_clusters, K_max, min_leaf, leaves, feats,
                        np.array(leaves, dtype=np.int64), Y, Z, n_clusters, Kq, n_leaves, min_leaf, np.array(feats, dtype=np.intp)))
     alts = list(ref.alternatives(K, X, leaves, Y, Z, n_clusters, Kq, n_leaves, min_leaf, feats))
     labels, _ = ref.labels_of(Y, Z, n_leaves)
-    tol = 1e-9 * max(1.0, abs(ref.objective(labels, K)), np.abs(K).sum() / max(len(K), 1))
+    tol = 1e-9 * max(abs(ref.objective(labels, K)), np.abs(K).sum() / max(len(K), 1))     # relative to the kernel's magnitude
     best = max(alts, key=lambda a: a["gain"]) if alts else None
     v = []
     base = dict(n_clusters=n_clusters, K_max=Kq, n_leaves=n_leaves, min_leaf=min_leaf, shadow=shadow,
@@ -334,7 +339,7 @@ def greedy_run(case):
     root = ref.objective(np.zeros(n, dtype=int), Kmat)
     final = ref.objective(model.labels_, Kmat)
     gains = float(sum(model.tree_.gains))
-    tol = 1e-9 * max(1.0, abs(final), abs(root))
+    tol = 1e-9 * max(abs(final), abs(root), np.abs(Kmat).sum() / n)
     base = dict(n_clusters=int(len(np.unique(model.labels_))), K_max=params.get("max_clusters", 3), shadow=False)
     if abs(final - (root + gains)) > tol * 10:
         used_ds = any(c[8]["left_target"] >= c[3] and c[8]["right_target"] >= c[3] for c in calls if c[8]["leaf"] >= 0 and c[8]["gain"] > 0)
@@ -400,7 +405,7 @@ def explorers(tier, seed):
     datas = list(row_multisets(4, 1)) + list(row_multisets(5, 1)) + list(row_multisets(4, 2))[:: (2 if thorough else 9)] + \
         [("generic", 6, 1), ("generic", 6, 2), ("generic", 7, 2)]
     for spec in datas:
-        for kern in ("linear", "rbf", "indef"):
+        for kern in ("linear", "rbf", "indef", "lin_small", "rbf_big"):
             for p in (grid if thorough else grid[::3]):
                 c3.append((spec, kern, p, seed))
     return [
